@@ -679,6 +679,14 @@ def _done(case, log, stats, violations, nproc):
 
 def gen_data(rng, tier, source):
     r = rng.random()
+    if r < (0.006 if tier == "quick" else 0.03):
+        # rare and expensive: inputs beyond the byte-mode capacity of the largest
+        # symbol that still fit because they are numeric / alphanumeric
+        if rng.random() < 0.6:
+            n = rng.choice([2954, 2955, 3000, 3500, 4297, 5000, 7000, 7089])
+            return bytes(rng.choice(b"0123456789") for _ in range(n))
+        n = rng.choice([2954, 3000, 3500, 4296])
+        return bytes(rng.choice(b"ABCDEFGHIJKLMNOPQRSTUVWXYZ $%*+-./:") for _ in range(n))
     if r < 0.05:
         d = b""
     elif r < 0.35:
@@ -737,6 +745,8 @@ def generate(rng, tier, opts=None):
     r = rng.random()
     case["level"] = None if r < 0.3 else rng.choice(LEVELS) if r < 0.93 else \
         rng.choice(UNKNOWN_LEVELS)
+    if len(data) > 2900 and rng.random() < 0.7:
+        case["level"] = "L"
     r = rng.random()
     case["optimize"] = None if r < 0.4 else rng.choice([0, 0, 1, 2, 4, 5, 10, 20, 25, 1000])
     r = rng.random()
@@ -804,6 +814,8 @@ def run_index(ctx, prop, tier, master, idx, opts):
 
 
 def _fails(ctx, case, key):
+    if core.min_expired():
+        return False
     v, _, _ = execute(ctx, case, EventLog(0))
     return any(x.key() == key for x in v)
 
@@ -829,6 +841,91 @@ def minimise(ctx, case, violation):
         if _fails(ctx, t, key):
             case = t
     return case
+
+
+def _real_process(case, dest, tmpdir):
+    """The same invocation as a real OS process with real pipes / a real pty /
+    a real file.  -> (status, stdout bytes, file bytes or None)"""
+    import subprocess
+    argv = build_argv(case, dest)
+    out_path = os.path.join(tmpdir, "qr.img")
+    argv = [out_path if a == OUT_PATH else a.replace(OUT_PATH, out_path) for a in argv]
+    data = bytes.fromhex(case["data"])
+    env = dict(os.environ, PYTHONPATH=core.REPO_DIR, PYTHONDONTWRITEBYTECODE="1")
+    cmd = [sys.executable, "-m", "qrcode.console_scripts"] + \
+          [a.encode("utf-8", "surrogateescape") for a in argv]
+    tty = dest == "tty" or (dest == "output" and case.get("output_stdout_tty", False))
+    if tty:
+        import pty
+        master, slave = pty.openpty()
+        p = subprocess.Popen(cmd, stdin=subprocess.PIPE, stdout=slave, stderr=subprocess.PIPE,
+                             env=env, cwd=tmpdir)
+        os.close(slave)
+        p.stdin.write(data if case["source"] == "stdin" else b"")
+        p.stdin.close()
+        chunks = []
+        while True:
+            try:
+                b = os.read(master, 65536)
+            except OSError:
+                break
+            if not b:
+                break
+            chunks.append(b)
+        p.wait(timeout=120)
+        p.stderr.close()
+        os.close(master)
+        out = b"".join(chunks).replace(b"\r\n", b"\n")
+    else:
+        p = subprocess.run(cmd, input=data if case["source"] == "stdin" else b"",
+                           capture_output=True, env=env, cwd=tmpdir, timeout=120)
+        out = p.stdout
+    fbytes = None
+    if os.path.exists(out_path):
+        with open(out_path, "rb") as f:
+            fbytes = f.read()
+        os.unlink(out_path)
+    return p.returncode, out, fbytes
+
+
+def _sim_only(case, ref=None):
+    res = simulate_process(case, case["dest"])
+    return {"status": res["status"], "stdout": res["stdout"], "file": res["file"]}
+
+
+def post_batch(tier, master, opts):
+    """Fidelity cross-check (not the deciding step): a few seeded cases are also
+    run as real `python -m qrcode.console_scripts` processes with real pipes, a
+    real pty and a real file; exit status and bytes must equal the in-process
+    simulation.  A mismatch is a harness failure."""
+    import tempfile
+    n = 4 if tier == "quick" else 24
+    core.import_target()
+    fs = ForkServer(None)
+    checked = 0
+    kinds = {}
+    with tempfile.TemporaryDirectory(prefix="verif_cli_") as td:
+        i = 0
+        while checked < n and i < 10 * n:
+            rng = random.Random(core.derive_seed(master, "C17/fidelity", i))
+            i += 1
+            case = generate(rng, "quick", opts)
+            if len(case["data"]) > 600:
+                continue
+            case.pop("max_write", None)
+            sim = fs.run(_sim_only, case, timeout=120)
+            st, out, fb = _real_process(case, case["dest"], td)
+            if (st, out, fb) != (sim["status"], sim["stdout"], sim["file"]):
+                raise core.HarnessError(
+                    "simulated process differs from the real one for case "
+                    f"{case}: real status {st}, {len(out)} stdout bytes, file "
+                    f"{None if fb is None else len(fb)}; simulated status {sim['status']}, "
+                    f"{len(sim['stdout'])} stdout bytes, file "
+                    f"{None if sim['file'] is None else len(sim['file'])}")
+            checked += 1
+            kinds[case["dest"]] = kinds.get(case["dest"], 0) + 1
+    return {"traces_validated_against_impl": checked,
+            "fidelity_cases_by_destination": kinds}
 
 
 def coverage(merged, tier):
